@@ -1,4 +1,3 @@
-use core::slice;
 use std::cmp::Ordering;
 use std::fmt::Display;
 use std::fmt::Formatter;
@@ -222,9 +221,9 @@ impl<const N: usize> AEADCipherCodec<N> {
                 CipherKind::Aead2022Blake3ChaCha8Poly1305 | CipherKind::Aead2022Blake3ChaCha20Poly1305 => {
                     let (nonce, text) = src.split_at_mut(udp::nonce_length(kind));
                     let session_id = {
-                        let slice = &text[..8];
-                        let slice: &[u64] = unsafe { slice::from_raw_parts(slice.as_ptr() as *const _, 1) };
-                        u64::from_be(slice[0])
+                        let mut session_id = [0; 8];
+                        session_id.copy_from_slice(&text[..8]);
+                        u64::from_be_bytes(session_id)
                     };
                     let cipher = get_cipher(kind, context.key, session_id);
                     cipher.decrypt_in_place_detached(nonce, &[], text).map_err(|e| anyhow!(e))?;
@@ -241,7 +240,7 @@ impl<const N: usize> AEADCipherCodec<N> {
 
         let nonce_length = udp::nonce_length(self.kind);
         let tag_size = self.kind.tag_size();
-        let header_length = nonce_length + tag_size + 8 + 8 + 1 + 8 + 2;
+        let header_length = nonce_length + tag_size + 8 + 8 + 1 + 8 + 8 + 2;
         if src.remaining() < header_length {
             bail!("packet too short, at least {} bytes, but found {} bytes", header_length, src.remaining());
         }
@@ -256,6 +255,9 @@ impl<const N: usize> AEADCipherCodec<N> {
         aead_2022::validate_timestamp(packet.get_u64()).map_err(anyhow::Error::msg)?;
         let client_session_id = packet.get_u64();
         let padding_length = packet.get_u16();
+        if packet.remaining() < padding_length as usize {
+            bail!("padding length {} exceeds the packet", padding_length);
+        }
         if padding_length > 0 {
             packet.advance(padding_length as usize);
         }
@@ -307,9 +309,9 @@ impl<const N: usize> AEADCipherCodec<N> {
             CipherKind::Aead2022Blake3ChaCha8Poly1305 | CipherKind::Aead2022Blake3ChaCha20Poly1305 => {
                 let (nonce, text) = src.split_at_mut(nonce_length);
                 let session_id = {
-                    let slice = &text[..8];
-                    let slice: &[u64] = unsafe { slice::from_raw_parts(slice.as_ptr() as *const _, 1) };
-                    u64::from_be(slice[0])
+                    let mut session_id = [0; 8];
+                    session_id.copy_from_slice(&text[..8]);
+                    u64::from_be_bytes(session_id)
                 };
                 let cipher = get_cipher(self.kind, context.key, session_id);
                 cipher.decrypt_in_place_detached(nonce, &[], text).map_err(|e| anyhow!(e))?;
@@ -328,6 +330,9 @@ impl<const N: usize> AEADCipherCodec<N> {
         }
         aead_2022::validate_timestamp(packet.get_u64()).map_err(anyhow::Error::msg)?;
         let padding_length = packet.get_u16();
+        if packet.remaining() < padding_length as usize {
+            bail!("padding length {} exceeds the packet", padding_length);
+        }
         if padding_length > 0 {
             packet.advance(padding_length as usize);
         }
